@@ -15,7 +15,7 @@
 //! Descriptors:
 //!  {"kind":"batch","n":N,"fail":k (0 = none),"len":L,"at":s,"units":[{loco params}..],"dem":[..]}
 //!  {"kind":"esttimes","cars":[n1,n2],"dir":"AB"|"BA","depart":s,"locos":m}
-//!  {"kind":"dispatch","trains":[{"cars":[n1,n2,n3],"dir":..,"depart":s}..],"walk":bool}
+//!  {"kind":"dispatch","trains":[{"cars":[n1,n2,n3,n4],"dir":..,"depart":s}..],"walk":bool}
 //!  {"kind":"setspeed"|"speedlimit","scale":"toy"|"real","cars":n,"len":L}
 #[path = "../canon.rs"]
 mod canon;
@@ -90,21 +90,26 @@ struct World {
     rv_inter: RailVehicle,
 }
 impl World {
-    /// three car types: n_cars_by_type is a HashMap with three keys, so every order-dependent float sum over it
-    /// (three terms are not associative) or "first key" choice would differ between runs
-    fn train_config(&self, n: [u32; 3]) -> anyhow::Result<TrainConfig> {
-        TrainConfig::new(
-            vec![self.rv_loaded.clone(), self.rv_empty.clone(), self.rv_inter.clone()],
-            HashMap::from([
-                (self.rv_loaded.car_type.clone(), n[0]),
-                (self.rv_empty.car_type.clone(), n[1]),
-                (self.rv_inter.car_type.clone(), n[2]),
-            ]),
-            TrainType::Freight,
-            None,
-            None,
-            None,
-        )
+    /// Four car types with masses that are not round numbers: n_cars_by_type is a HashMap with four keys (a fresh
+    /// map, hence a fresh hasher and iteration order, on every call — a clone would keep the order), and sums of
+    /// three or more such terms depend on the order of addition. Every order-dependent float sum over the map or
+    /// "first key" choice therefore differs between executions of the same input.
+    fn train_config(&self, n: [u32; 4]) -> anyhow::Result<TrainConfig> {
+        let car = |rv: &RailVehicle, name: &str, base: f64, freight: f64| {
+            let mut v = rv.clone();
+            v.car_type = name.into();
+            v.mass_static_base = uc::KG * base;
+            v.mass_freight = uc::KG * freight;
+            v
+        };
+        let rvs = vec![
+            car(&self.rv_loaded, "Manifest_Loaded", 28500.1, 101500.3),
+            car(&self.rv_empty, "Manifest_Empty", 28500.1, 0.0),
+            car(&self.rv_inter, "Intermodal_Loaded", 26308.7, 48151.5),
+            car(&self.rv_loaded, "Manifest_Partial", 31751.5, 48084.2),
+        ];
+        let counts: HashMap<String, u32> = rvs.iter().zip(n).map(|(rv, k)| (rv.car_type.clone(), k)).collect();
+        TrainConfig::new(rvs, counts, TrainType::Freight, None, None, None)
     }
 }
 static WORLD: OnceLock<Result<World, String>> = OnceLock::new();
@@ -131,7 +136,7 @@ fn corridor_train(t: &Value, id: &str) -> anyhow::Result<SpeedLimitTrainSim> {
     let w = world()?;
     let cars = t.get("cars").and_then(|x| x.as_array()).cloned().unwrap_or_default();
     let c = |i: usize, d: u32| cars.get(i).and_then(|x| x.as_u64()).map(|x| x as u32).unwrap_or(d);
-    let tc = w.train_config([c(0, 20), c(1, 10), c(2, 5)])?;
+    let tc = w.train_config([c(0, 20), c(1, 10), c(2, 5), c(3, 7)])?;
     let mut con = Consist::default();
     if let Some(m) = t.get("locos").and_then(|x| x.as_u64()) {
         con.loco_vec.truncate((m as usize).clamp(1, 5));
@@ -217,7 +222,7 @@ fn execute(desc: &Value) -> anyhow::Result<(bool, Node)> {
             let mut s = if real {
                 let w = world()?;
                 let n = desc.get("cars").and_then(|x| x.as_u64()).unwrap_or(20) as u32;
-                let tc = w.train_config([n, n / 2 + 1, n / 3 + 1])?;
+                let tc = w.train_config([n, n / 2 + 1, n / 3 + 1, n / 4 + 3])?;
                 let tsb = TrainSimBuilder::new("s".into(), tc, Consist::default(), None, None, None);
                 let route: Vec<LinkIdx> = [1u32, 2, 4].iter().map(|l| LinkIdx::new(*l)).collect();
                 tsb.make_set_speed_train_sim(&w.net, route, ramp(len, 0.05, 6.0), Some(1))?
@@ -352,7 +357,7 @@ fn gen(seed: u64, n: usize, tier: &str) -> Vec<Value> {
     let heavy: i64 = if tier == "quick" { 1 } else { 4 };
     for k in 0..n {
         let mut r = Rng::new(seed.wrapping_mul(9_176_533).wrapping_add(k as u64));
-        let cars = |r: &mut Rng| json!([r.range(5, 50), r.range(1, 30), r.range(1, 20)]);
+        let cars = |r: &mut Rng| json!([r.range(5, 50), r.range(1, 30), r.range(1, 20), r.range(1, 25)]);
         let c = match k % 10 {
             0 | 1 | 2 | 3 => {
                 // larger batches, random unit parameters, failing element at a random position (or none)
